@@ -1452,6 +1452,7 @@ void remove_test_interactive (interactive_t *ip) {
  */
 static void setup_accepted_connection (port_def_t *port, socket_fd_t new_socket_fd, struct sockaddr_in *addr) {
   object_t *user_ob;
+  object_t *save_command_giver = command_giver;
   char addr_str[50];
 
   inet_ntop (AF_INET, &addr->sin_addr.s_addr, addr_str, sizeof(addr_str));
@@ -1471,6 +1472,7 @@ static void setup_accepted_connection (port_def_t *port, socket_fd_t new_socket_
   if (!master_ob->interactive)
     {
       SOCKET_CLOSE (new_socket_fd);
+      command_giver = save_command_giver;
       return;
     }
 
@@ -1489,6 +1491,7 @@ static void setup_accepted_connection (port_def_t *port, socket_fd_t new_socket_
       /* Connection rejected by mudlib */
       if (master_ob->interactive)
         remove_interactive (master_ob, 0);
+      command_giver = save_command_giver;
       return;
     }
 
@@ -1505,6 +1508,8 @@ static void setup_accepted_connection (port_def_t *port, socket_fd_t new_socket_
 
   /* Call logon() apply to start the logon process on the user object. */
   mudlib_logon (user_ob);  
+  /* do not leave command_giver pointing at the new user: the object may be freed before the next task runs */
+  command_giver = save_command_giver;
   if (user_ob->flags & O_DESTRUCTED)
     return; /* logon() destructed the user object */
 
